@@ -8,6 +8,10 @@ VERIF="$(cd "$(dirname "${BASH_SOURCE[0]}")/.." && pwd)"
 SCR="$(mktemp -d /tmp/pkgsim-seed.XXXXXX)"; trap 'rm -rf "$SCR"' EXIT
 export CARGO_NET_OFFLINE=true CARGO_TARGET_DIR="${SEED_TARGET:-/tmp/pkgsim-seed-target}"
 rsync -a --exclude target --exclude .git /repo/ "$SCR/repo/"
+# a shared target directory keeps the library built from the previous seed's patched copy;
+# workspace members are fingerprinted by modification time, not by path, so make the clean
+# sources newer than anything built before
+find "$SCR/repo/src" "$SCR/repo/Cargo.toml" -type f -exec touch {} +
 cd "$SCR/repo"
 cp "$D/demo.rs" tests/demo.rs
 clean_demo=FAIL; cargo test --offline --test demo >"$SCR/clean_demo.log" 2>&1 && clean_demo=pass
